@@ -31,11 +31,11 @@ TIERS = {
 }
 STEP_CAP = 500000
 SHRINK_BUDGET = 300
-FAULT_OPS = ("gc", "drop_graph", "alloc")
+FAULT_OPS = ("gc", "drop_graph", "alloc", "flood")
 PROBES = ["cache_entry_read_by_engine_with_other_attrs", "weak_entry_purged_by_gc", "proper_subgraph_query",
           "filter_on_off_pair", "one_edit_neighbour_pair", "relabelled_pair", "hcount_asymmetric_pair",
           "contained_and_mapped", "engine_shares_graph_with_other_engine", "call_relying_on_signature_defaults", "multi_component_pattern", "graph_derived_from_queried_object",
-          "caller_list_mutated_between_calls"]
+          "caller_list_mutated_between_calls", "planted_pattern_in_large_host", "label_flood"]
 REAL = ["synkit.Graph.Matcher.graph_matcher.GraphMatcherEngine.isomorphic / get_mappings / _pre_check / _wl_hash_cached (class-level weak cache)",
         "synkit.Graph.Matcher.subgraph_matcher.SubgraphMatch.subgraph_isomorphism / is_subgraph",
         "synkit.Graph.Matcher.subgraph_matcher.SubgraphSearchEngine.find_subgraph_mappings (_quick_pre_filter on/off)",
@@ -239,6 +239,13 @@ def generate(seed: int, tier: str = "quick") -> Dict[str, Any]:
             ops.append({"op": "drop_graph", "s": s(), "k": rng.randrange(8)})
         elif c < 0.2:
             ops.append({"op": "derive", "s": s(), "kind": rng.choice(["relabel", "edit", "sub"]), "src": rng.randrange(8)})
+            if rng.random() < 0.12:
+                # sizes a brute-force reference cannot afford: the pattern is planted, so containment is known by construction
+                ops.append({"op": "q_big", "s": s(), "n": rng.randint(10, 18), "k": rng.randint(2, 4),
+                            "shape": rng.choice(["path", "tree", "ring_tail"])})
+            if rng.random() < 0.004:
+                # a long-running process has seen thousands of distinct labels
+                ops.append({"op": "flood", "s": s(), "n": 4400})
         elif c < 0.24:
             ops.append({"op": "new_engine", "s": s(), "cfg": rng.randrange(len(ENGINE_CFGS))})
         elif c < 0.5:
@@ -419,6 +426,73 @@ def _run(case: Dict[str, Any], sim: Sim, world: World) -> None:
             continue
         if k == "new_engine":
             new_engine(op["cfg"])
+            continue
+        if k == "flood":
+            ef = GraphMatcherEngine(node_attrs=["tag"], edge_attrs=[], wl1_filter=True, max_mappings=1)
+            left, t_ = op["n"], 0
+            while left > 0:
+                m_ = min(150, left)
+                gf = nx.path_graph(m_)
+                for n_ in gf.nodes:
+                    gf.nodes[n_]["tag"] = "t%d" % t_
+                    t_ += 1
+                if not ef.isomorphic(gf, gf):
+                    raise Violation(PROP, "GraphMatcherEngine.isomorphic", "verdict_wrong", "graph vs itself", {"nodes": m_})
+                left -= m_
+            sim.fault("flood")
+            sim.probe("label_flood")
+            sim.event("flood", op["n"])
+            continue
+        if k == "q_big":
+            r_ = rng_for(op.get("s", 0), "big")
+            n_ = op["n"]
+            host = nx.Graph()
+            for i_ in range(1, n_ + 1):
+                host.add_node(i_, element=r_.choice(ELEMENTS), charge=r_.choice([0, 0, 0, 1]))
+            for i_ in range(2, n_ + 1):
+                j_ = i_ - 1 if op["shape"] != "tree" else r_.randint(max(1, i_ - 3), i_ - 1)
+                host.add_edge(j_, i_, order=r_.choice([1, 1, 2]))
+            if op["shape"] == "ring_tail" and n_ >= 6:
+                host.add_edge(1, 5, order=1)
+            start = r_.randint(1, n_)
+            keep = [start]
+            frontier = [start]
+            while len(keep) < op["k"] and frontier:
+                x = frontier.pop(0)
+                for y in sorted(host.neighbors(x)):
+                    if y not in keep and len(keep) < op["k"]:
+                        keep.append(y)
+                        frontier.append(y)
+            off = r_.choice([0, 100])
+            mp_ = {x: (i_ + 1 + off) for i_, x in enumerate(keep)}
+            pattern = nx.relabel_nodes(host.subgraph(keep).copy(), mp_, copy=True)
+            rh = ref_graph(host, ["element", "charge"], ["order"])
+            rp = ref_graph(pattern, ["element", "charge"], ["order"])
+            sim.probe("planted_pattern_in_large_host")
+            for strat in ("all", "comp", "bt"):
+                ms = SubgraphSearchEngine.find_subgraph_mappings(host, pattern, node_attrs=["element", "charge"], edge_attrs=["order"],
+                                                                 strategy=strat, strict_cc_count=False)
+                if not ms:
+                    raise Violation(PROP, "SubgraphSearchEngine.find_subgraph_mappings", "no_embedding_although_contained",
+                                    "strategy=%s, large host" % strat, {"shape": op["shape"], "k": len(keep), "seed": op.get("s")})
+                for m in ms[:50]:
+                    if not gr.is_valid_map(rp, rh, dict(m), mode="mono", node_ok=_host_ge):
+                        raise Violation(PROP, "SubgraphSearchEngine.find_subgraph_mappings", "embedding_invalid", "large host", {"strategy": strat})
+            for wl1 in (False, True):
+                eg = GraphMatcherEngine(node_attrs=["element", "charge"], edge_attrs=["order"], wl1_filter=wl1, max_mappings=2)
+                ms = eg.get_mappings(host, pattern)
+                if not ms:
+                    raise Violation(PROP, "GraphMatcherEngine.get_mappings", "no_embedding_although_contained",
+                                    "pattern smaller than host, wl1_filter=%s, large host" % wl1, {"shape": op["shape"], "k": len(keep)})
+                for m in ms:
+                    if not gr.is_valid_map(rp, rh, dict(m), mode="mono", node_ok=_host_ge):
+                        raise Violation(PROP, "GraphMatcherEngine.get_mappings", "embedding_invalid", "large host", {})
+            for filt in (False, True):
+                for ct in ("induced", "monomorphism"):
+                    if not SubgraphMatch.subgraph_isomorphism(pattern, host, use_filter=filt, check_type=ct):
+                        raise Violation(PROP, "SubgraphMatch.subgraph_isomorphism", "verdict_wrong", "use_filter=%s, %s, large host" % (filt, ct), {})
+            sim.state(("big", op["shape"], min(n_, 12), len(keep)))
+            sim.event("q_big", {"n": n_, "k": len(keep)})
             continue
         if k == "alloc":
             world.set_alloc_policy(op["p_reuse"], op["pick"], op["gc_p"])
